@@ -219,13 +219,6 @@ func pickOperand(t *rapid.T, cs []operand) (operand, bool) {
 	if len(cs) == 0 {
 		return operand{}, false
 	}
-	// arrays carved out of immutable storage by an open finding: most
-	// operations on them would be excluded, so they are mostly left alone
-	if rapid.IntRange(0, 7).Draw(t, "allowTainted") != 0 {
-		if ok := filter(cs, func(c operand) bool { return !(c.V.k == kArr && openFindings[c.V.st.taint()]) }); len(ok) > 0 {
-			cs = ok
-		}
-	}
 	if rapid.Bool().Draw(t, "preferImm") {
 		if im := filter(cs, func(c operand) bool { return c.viaImm }); len(im) > 0 {
 			cs = im
